@@ -209,6 +209,11 @@ fn ref_decimal<const N: usize>(b: &[u8; N]) -> Option<i128> {
     Some(if neg { -v } else { v })
 }
 
+/// error messages are not the subject (formatting a 128-bit number costs CBMC a 128-bit division per digit)
+fn empty_message(_args: std::fmt::Arguments<'_>) -> String {
+    String::new()
+}
+
 fn set_value<const N: usize>() {
     let b: [u8; N] = kani::any();
     let mut i = 0;
@@ -259,11 +264,12 @@ fn set_value<const N: usize>() {
 //@ symbolic: 3 bytes of text over [0-9-]
 //@ bounds: text length 3 (instance: the shortest text that exceeds a byte); unwind 5
 //@ oracle: setVariable makes a later read return the written value: the stored little-endian bytes decode at the variable's type to the number typed; a number the type cannot hold, or text that is not a number, is an error (never a silently different value)
-//@ stubs: Backtrace::capture -> disabled (anyhow context)
+//@ stubs: Backtrace::capture -> disabled (anyhow context); alloc::fmt::format -> empty (error message text)
 //@ outside: hex input, floats, bool, char, wider kinds; composite values (serialize.rs)
 //@ timeout: 1500
 #[kani::proof]
 #[kani::stub(std::backtrace::Backtrace::capture, no_backtrace)]
+#[kani::stub(alloc::fmt::format, empty_message)]
 #[kani::unwind(5)]
 fn c15_set_value_int_3() {
     set_value::<3>();
